@@ -476,6 +476,21 @@ class ConsumerMdib(mdibbase.MdibBase):
                     return False
         return True
 
+    def _is_from_loaded_sequence(self, mdib_version_group: MdibVersionGroupReader) -> bool:
+        """Check the sequence id and instance id of a report again; call this with mdib_lock acquired.
+
+        The pre-check runs without the mdib lock. While the thread waited for the lock, reload_all might have loaded
+        the mdib of another sequence / instance. Such a report must not be applied (it would also overwrite the ids).
+        """
+        if mdib_version_group.sequence_id == self.sequence_id and mdib_version_group.instance_id == self.instance_id:
+            return True
+        self._logger.warning(  # noqa: PLE1205
+            'ignoring report with sequence id "{}" instance id "{}": mdib was reloaded meanwhile',
+            mdib_version_group.sequence_id,
+            mdib_version_group.instance_id,
+        )
+        return False
+
     def process_incoming_metric_states_report(
         self,
         mdib_version_group: MdibVersionGroupReader,
@@ -485,7 +500,8 @@ class ConsumerMdib(mdibbase.MdibBase):
         if not self._pre_check_report_ok(mdib_version_group, report, self._process_incoming_metric_states_report):
             return
         with self.mdib_lock:
-            self._process_incoming_metric_states_report(mdib_version_group, report)
+            if self._is_from_loaded_sequence(mdib_version_group):
+                self._process_incoming_metric_states_report(mdib_version_group, report)
 
     def _process_incoming_metric_states_report(
         self,
@@ -516,7 +532,8 @@ class ConsumerMdib(mdibbase.MdibBase):
         if not self._pre_check_report_ok(mdib_version_group, report, self._process_incoming_alert_states_report):
             return
         with self.mdib_lock:
-            self._process_incoming_alert_states_report(mdib_version_group, report)
+            if self._is_from_loaded_sequence(mdib_version_group):
+                self._process_incoming_alert_states_report(mdib_version_group, report)
 
     def _process_incoming_alert_states_report(
         self,
@@ -547,7 +564,8 @@ class ConsumerMdib(mdibbase.MdibBase):
         if not self._pre_check_report_ok(mdib_version_group, report, self._process_incoming_operational_states_report):
             return
         with self.mdib_lock:
-            self._process_incoming_operational_states_report(mdib_version_group, report)
+            if self._is_from_loaded_sequence(mdib_version_group):
+                self._process_incoming_operational_states_report(mdib_version_group, report)
 
     def _process_incoming_operational_states_report(
         self,
@@ -578,7 +596,8 @@ class ConsumerMdib(mdibbase.MdibBase):
         if not self._pre_check_report_ok(mdib_version_group, report, self._process_incoming_context_states_report):
             return
         with self.mdib_lock:
-            self._process_incoming_context_states_report(mdib_version_group, report)
+            if self._is_from_loaded_sequence(mdib_version_group):
+                self._process_incoming_context_states_report(mdib_version_group, report)
 
     def _process_incoming_context_states_report(
         self,
@@ -609,7 +628,8 @@ class ConsumerMdib(mdibbase.MdibBase):
         if not self._pre_check_report_ok(mdib_version_group, report, self._process_incoming_component_states_report):
             return
         with self.mdib_lock:
-            self._process_incoming_component_states_report(mdib_version_group, report)
+            if self._is_from_loaded_sequence(mdib_version_group):
+                self._process_incoming_component_states_report(mdib_version_group, report)
 
     def _process_incoming_component_states_report(
         self,
@@ -640,7 +660,8 @@ class ConsumerMdib(mdibbase.MdibBase):
         if not self._pre_check_report_ok(mdib_version_group, state_containers, self._process_incoming_waveform_states):
             return
         with self.mdib_lock:
-            self._process_incoming_waveform_states(mdib_version_group, state_containers)
+            if self._is_from_loaded_sequence(mdib_version_group):
+                self._process_incoming_waveform_states(mdib_version_group, state_containers)
 
     def _process_incoming_waveform_states(
         self,
@@ -711,7 +732,8 @@ class ConsumerMdib(mdibbase.MdibBase):
         if not self._pre_check_report_ok(mdib_version_group, report, self._process_incoming_description_modifications):
             return
         with self.mdib_lock:
-            self._process_incoming_description_modifications(mdib_version_group, report)
+            if self._is_from_loaded_sequence(mdib_version_group):
+                self._process_incoming_description_modifications(mdib_version_group, report)
 
     def _process_incoming_description_modifications(  # noqa: PLR0915, PLR0912, C901
         self,
